@@ -653,7 +653,7 @@ func srcSide(r *mon.Run) {
 				r.Tab("src_error_phase", "Decrypt:"+region)
 				return
 			}
-			if j.once && res.ReadErr == io.EOF && bytes.Equal(res.Plain, j.f.pt) {
+			if j.once && fr.FiredWithData && res.ReadErr == io.EOF && bytes.Equal(res.Plain, j.f.pt) {
 				// a transient error that arrived together with the bytes a
 				// full read asked for is dropped by io.ReadFull (standard
 				// library contract); nothing was lost and the result is the
@@ -709,7 +709,7 @@ func dearmorOnly(r *mon.Run, name string, fr *mon.FaultReader, text []byte, once
 	r.Count("dearmor_only_runs", 1)
 	replay := map[string]any{"case": name}
 	cls := fmt.Sprintf("transient=%v", once)
-	if once && ferr == io.EOF && bytes.Equal(out, want) {
+	if once && fr.FiredWithData && ferr == io.EOF && bytes.Equal(out, want) {
 		r.Count("src_transient_error_absorbed_without_loss", 1)
 		return
 	}
